@@ -420,9 +420,6 @@ func (s *State) assume(l *Lin) {
 		}
 		return
 	}
-	if s.linItv(l).Hi <= 0 {
-		return // already implied
-	}
 	if s.linItv(l).Lo > 0 {
 		s.dead = true
 		return
@@ -591,6 +588,9 @@ func joinValsK(n, a, b *State, x, y AVal, key string) (AVal, bool) {
 		if x.Obj == y.Obj && x.Path == y.Path && x.HasSym && y.HasSym && x.Sym == y.Sym {
 			return x, true
 		}
+		if x.Obj == y.Obj && x.Path == y.Path && !x.HasSym && !y.HasSym && x.NonNil && y.NonNil {
+			return x, true
+		}
 		if x.Obj == y.Obj && x.Path == y.Path && x.Obj != nil {
 			// same target, different symbols: new symbol with joined nil-ness
 			sy := n.u.joinSym(key + "|ptr")
@@ -655,7 +655,15 @@ func joinValsK(n, a, b *State, x, y AVal, key string) (AVal, bool) {
 		}
 		r := AVal{Kind: avIface, Sym: sy, HasSym: true, Type: x.Type}
 		if x.DynT != nil && y.DynT != nil {
-			r.DynT = append(append([]types.Type{}, x.DynT...), y.DynT...)
+			r.DynT = unionTypes(x.DynT, y.DynT)
+		}
+		if na == nilNo && nb == nilNo && !x.HasSym && !y.HasSym {
+			r.HasSym, r.NonNil = false, true
+		}
+		if x.Inner != nil && y.Inner != nil && len(r.DynT) == 1 {
+			if iv, ok := joinValsK(n, a, b, *x.Inner, *y.Inner, key+"|inner"); ok {
+				r.Inner = &iv
+			}
 		}
 		return r, true
 	case avBool:
@@ -792,6 +800,12 @@ func widenState(old, cur *State) *State {
 		return cur
 	}
 	n := cur.clone()
+	// facts: only those already present before (prevents infinite ascending chains of shifted facts)
+	for k := range n.facts {
+		if _, ok := old.facts[k]; !ok {
+			delete(n.facts, k)
+		}
+	}
 	for k := range n.itv {
 		o, c := old.atomItv(k), n.atomItv(k)
 		r := c
@@ -905,4 +919,21 @@ func (s *State) renameAtom(a atomID, shift *int64) {
 			}
 		}
 	}
+}
+
+func unionTypes(a, b []types.Type) []types.Type {
+	out := append([]types.Type{}, a...)
+	for _, t := range b {
+		dup := false
+		for _, u := range out {
+			if types.Identical(t, u) {
+				dup = true
+				break
+			}
+		}
+		if !dup {
+			out = append(out, t)
+		}
+	}
+	return out
 }
